@@ -344,6 +344,14 @@ def gen_boundary(rnd, tier):
         cases.append(mk_case([("F", ok + b"B" * n + b"\r\nBEGIN\r\n")], tag="inbuf"))
         cases.append(mk_case([("F", ok), ("S", None), ("F", b"B" * n), ("F", b"\r\nBEGIN\r\n")], tag="inbuf"))
         cases.append(mk_case([("F", ok), ("S", None), ("F", b"BEGIN\r\n" + b"m" * n)], tag="inbuf"))
+    # unterminated-line floods, delivered in read quanta of 2048 bytes (what the socket transport reads at a time)
+    for n in (16383, 16384, 16385, 18 * 1024, 32 * 1024, 64 * 1024) + ((512 * 1024,) if True else ()):
+        data = b"A" * n
+        st = [("F", data[i:i + 2048]) for i in range(0, n, 2048)] + [("F", b"\r\nAUTH\r\n"), ("S", None)]
+        cases.append(mk_case(st, tag="flood"))
+        if n <= 64 * 1024:
+            st = [("F", ok), ("S", None)] + [("F", data[i:i + 2048]) for i in range(0, n, 2048)] + [("F", b"\r\nBEGIN\r\n")]
+            cases.append(mk_case(st, tag="flood"))
     # exactly MAX_BUFFER including the terminator and the following commands
     for n in (16382, 16383, 16384):
         cases.append(mk_case([("F", b"X" * (n - 2) + b"\r\n" + ok + b"BEGIN\r\n")], tag="inbuf"))
@@ -636,7 +644,8 @@ def buffer_oracle(c, p):
             if j >= 0 and len(pending) <= MAX_BUFFER:
                 pending = pending[j + 2:]
             if len(pending) > MAX_BUFFER + 0 and rc not in "DA" and b"\r\n" not in pending:
-                return "server still accepts input while holding %d unprocessed handshake bytes" % len(pending)
+                return ("server still accepts input while holding %d not-yet-consumed handshake bytes (no line end among them), neither answered nor "
+                        "disconnected; the fixed amount is %d (+ one read of 2048 in flight)" % (len(pending), MAX_BUFFER))
     rej = produced_output(c, p).count(b"REJECTED")
     if rej > 6 or (rej == 6 and p["end"]["rc"] != "D"):
         return "%d REJECTED lines sent and end state %s" % (rej, p["end"]["rc"])
@@ -701,8 +710,20 @@ def check_case(rep, known, c, r, p, ml, m, sres, lines, stats):
         rep.violation("implementation and model disagree on %s: impl `%s` model `%s`" % (impl_line(c)[:300], r[:300], m[:300]), replay, found_input=False)
 
 
+def bigstack(exe):
+    """the extracted model recurses over its byte lists: give it a large stack for the 512 KiB floods"""
+    w = exe + "_bigstack"
+    body = "#!/bin/sh\nulimit -s unlimited 2>/dev/null || ulimit -s 4000000 2>/dev/null\nexec %s\n" % exe
+    if not os.path.exists(w) or open(w).read() != body:
+        with open(w, "w") as f:
+            f.write(body)
+        os.chmod(w, 0o755)
+    return w
+
+
 def run_leg1(ctx, cases, known, stats):
     rep, tier, info = ctx["rep"], ctx["tier"], ctx["info"]
+    info = dict(info, model_auth=bigstack(info["model_auth"]))
     asserts = build_asserts(info)
     batch = [c for c in cases if not may_abort(c)]
     single = [c for c in cases if may_abort(c)]
@@ -1310,6 +1331,69 @@ def run_boundary(ctx, stats):
     stats["boundary_ok"] = n_ok
 
 
+# ---------------------------------------------------------------------------
+# leg 2c: unterminated-line floods against the daemon ("buffers no more than a fixed amount of handshake data")
+# ---------------------------------------------------------------------------
+READ_QUANTUM = 2048
+
+
+def run_flood(ctx, stats):
+    import socket, select
+    sys.path.insert(0, os.path.join(vlib.VERIF, "harness", "py"))
+    import rawbus
+    rep, info = ctx["rep"], ctx["info"]
+    d = rawbus.Daemon(info["daemon"])
+    n_ok = 0
+    tail = b"\r\nAUTH\r\n"
+    sizes = (16383 - len(tail), MAX_BUFFER - len(tail), MAX_BUFFER - len(tail) + 1, 16385, 18 * 1024, 32 * 1024, 64 * 1024, 512 * 1024)
+    try:
+        for n in sizes:
+            sk = socket.socket(socket.AF_UNIX, socket.SOCK_STREAM)
+            sk.connect(d.sock)
+            sk.settimeout(3.0)
+            written, closed = 0, False
+            try:
+                sk.sendall(b"\0")
+                for i in range(0, n, READ_QUANTUM):
+                    sk.sendall(b"A" * min(READ_QUANTUM, n - i))
+                    written += min(READ_QUANTUM, n - i)
+                sk.sendall(tail)
+            except OSError:
+                closed = True
+            lines, rest, eof = ([], b"", True) if closed else read_lines(sk, 2, 3.0)
+            sk.close()
+            replay = {"leg": "flood", "unterminated_bytes": n, "written_before_close": written, "answers": [l.decode("latin-1") for l in lines], "eof": eof or closed}
+            # model-independent: the peer is unauthenticated; once more than MAX_BUFFER + one read quantum of bytes without a line end
+            # have been taken, the server must have given up -- it must not still be there answering
+            if n > MAX_BUFFER + READ_QUANTUM and lines:
+                rep.violation("daemon accepted an unterminated handshake line of %d bytes from an unauthenticated peer (cap %d + one read of %d) and then answered %s "
+                              "instead of disconnecting" % (n, MAX_BUFFER, READ_QUANTUM, [l[:40] for l in lines]), replay)
+                continue
+            # the size test runs on the whole buffer before a line is looked at; between the two bounds the outcome depends on how
+            # the daemon's reads happen to fall
+            expect_closed = n > MAX_BUFFER
+            if not expect_closed and n + len(tail) > MAX_BUFFER:
+                n_ok += 1
+                continue
+            if expect_closed and lines:
+                rep.violation("daemon flood of %d bytes: answers %s, model: disconnect" % (n, [l[:40] for l in lines]),
+                              dict(replay, names="correspondence daemon vs Auth.Server.work (MAX_BUFFER)"), found_input=False)
+            elif not expect_closed and [l.split(b" ")[0] for l in lines] != [b"ERROR", b"REJECTED"]:
+                rep.violation("daemon flood of %d bytes (below the cap): answers %s, model: ERROR then REJECTED" % (n, [l[:40] for l in lines]),
+                              dict(replay, names="correspondence daemon vs Auth.Server.work (MAX_BUFFER)"), found_input=False)
+            else:
+                n_ok += 1
+            if not d.alive():
+                rep.violation("daemon died during the flood leg: %s" % d.stderr()[-600:], replay)
+                break
+    finally:
+        rc, err = d.stop()
+        if rc not in (0, -15) or "ERROR: AddressSanitizer" in err or "runtime error" in err:
+            rep.violation("daemon exited with %s / sanitizer output during the flood leg: %s" % (rc, err[-800:]), {"leg": "flood", "stderr": err[-3000:]})
+    stats["flood_sizes"] = len(sizes)
+    stats["flood_ok"] = n_ok
+
+
 def gen_aux(rnd, tier):
     """SHA-1, hex decoding and uid parsing: library vs model vs an independent implementation"""
     lines, expect = [], []
@@ -1377,10 +1461,14 @@ def run(ctx):
     t2 = time.time()
     run_leg2(ctx, known, stats)
     run_boundary(ctx, stats)
+    run_flood(ctx, stats)
     t3 = time.time()
+    # violations that carry a failing input first (only the first ten are printed)
+    rep.violations.sort(key=lambda v: not v[2])
     sample_idx = list(range(0, len(cases), max(1, len(cases) // 10)))[:10]
     rep.coverage.update({
         "evaluations": nrun + stats.get("aux", 0) + stats.get("keyring", 0) + stats.get("daemon_scripts", 0) + stats.get("boundary_cutsets", 0),
+        "daemon_floods": stats.get("flood_sizes", 0), "daemon_floods_consistent": stats.get("flood_ok", 0),
         "boundary_cutsets": stats.get("boundary_cutsets", 0), "boundary_cutsets_answered": stats.get("boundary_ok", 0),
         "keyring_cases": stats.get("keyring", 0), "keyring_cases_serving_a_key": stats.get("keyring_nontrivial", 0),
         "distinct_nontrivial": len(nontrivial),
